@@ -131,13 +131,13 @@ FromMessages(S, u, level) ==
   IN IF r.bad \/ r.s = 0 \/ r.e = 0 THEN Err
      ELSE [s |-> r.s, e |-> r.e, ok |-> S[r.e].st = "succeeded", ch |-> r.ch]         \* .succeeded reads the END message
 
-\* LoggedAction.of_type(messages, actionType): a sequence of trees, or Err
+\* LoggedAction.of_type(messages, actionType): [err |-> FALSE, v |-> the list of trees], or err = TRUE (ValueError)
 RECURSIVE OTScan(_, _, _, _)
 OTScan(S, ty, i, acc) ==
-  IF i > Len(S) THEN acc
+  IF i > Len(S) THEN [err |-> FALSE, v |-> acc]
   ELSE IF S[i].k # "msg" /\ S[i].ty = ty /\ S[i].st = "started"
        THEN LET t == FromMessages(S, S[i].u, S[i].lv) IN
-            IF IsErr(t) THEN Err ELSE OTScan(S, ty, i + 1, Append(acc, t))
+            IF IsErr(t) THEN [err |-> TRUE, v |-> <<>>] ELSE OTScan(S, ty, i + 1, Append(acc, t))
        ELSE OTScan(S, ty, i + 1, acc)
 OfType(S, ty) == OTScan(S, ty, 1, <<>>)
 
@@ -169,9 +169,9 @@ ContainsFields(f, exp) == LET sub == [k \in DOMAIN f \cap DOMAIN exp |-> f[k]]
 \*        "err" (the documented ValueError of of_type)
 AssertHasAction(S, ty, succ, sf, ef) ==
   LET acts == OfType(S, ty) IN
-  IF IsErr(acts) THEN [out |-> "err", ret |-> 0]
-  ELSE IF acts = <<>> THEN [out |-> "fail", ret |-> 0]
-  ELSE LET a == acts[1] IN
+  IF acts.err THEN [out |-> "err", ret |-> 0]
+  ELSE IF acts.v = <<>> THEN [out |-> "fail", ret |-> 0]
+  ELSE LET a == acts.v[1] IN
        IF a.ok # succ THEN [out |-> "fail", ret |-> 0]
        ELSE IF ~ContainsFields(S[a.s].f, sf) THEN [out |-> "fail", ret |-> 0]
        ELSE IF ~ContainsFields(S[a.e].f, ef) THEN [out |-> "fail", ret |-> 0]
@@ -225,13 +225,13 @@ C17_OfType(S) ==
   \A ty \in Types(S) \cup {"absent"} :
      LET st == StartsOfType(S, ty) IN
      IF \A j \in DOMAIN st : FullyFinished(S, ActOf(S[st[j]]))
-     THEN OfType(S, ty) = [j \in DOMAIN st |-> EmOrd(Tree(S, S[st[j]].u, Front(S[st[j]].lv)))]
-     ELSE IsErr(OfType(S, ty))
+     THEN OfType(S, ty) = [err |-> FALSE, v |-> [j \in DOMAIN st |-> EmOrd(Tree(S, S[st[j]].u, Front(S[st[j]].lv)))]]
+     ELSE OfType(S, ty).err
 \* ... which is exactly the parser's tree whenever siblings were emitted in level order
 C17_SameAsParser(S) ==
   SiblingOrdered(S) =>
-    \A ty \in Types(S) : LET ot == OfType(S, ty) IN
-       ~IsErr(ot) => \A j \in DOMAIN ot :
+    \A ty \in Types(S) : LET ot == OfType(S, ty).v IN
+       \A j \in DOMAIN ot :
            LET u == S[ot[j].s].u  l == Front(S[ot[j].s].lv) IN ot[j] = PTree(S, ParserTask(S, u), u, l)
 \* the declarative tree IS what the transcribed parser builds (every action of every task, finished or not)
 C17_TreeIsParserTree(S) ==
@@ -241,8 +241,8 @@ C17_ParserIsCanon(S) ==
 \* each entry exposes the action's own start and end message, the success flag of the end message, and covers exactly
 \* the messages at or below the action (each once)
 C17_Exposes(S) ==
-  \A ty \in Types(S) : LET ot == OfType(S, ty) IN
-     ~IsErr(ot) => \A j \in DOMAIN ot :
+  \A ty \in Types(S) : LET ot == OfType(S, ty).v IN
+     \A j \in DOMAIN ot :
         LET t == ot[j]  u == S[t.s].u  l == Front(S[t.s].lv) IN
         /\ S[t.s].k = "start" /\ S[t.s].ty = ty
         /\ S[t.e].k = "end" /\ S[t.e].u = u /\ Front(S[t.e].lv) = l
@@ -276,8 +276,8 @@ PreTypes(tt) == <<tt.t>> \o (IF "c" \in DOMAIN tt
                              ELSE <<>>)
 Abs(x) == IF x < 0 THEN 0 - x ELSE x
 C17_PreOrder(S) ==
-  \A ty \in Types(S) : LET ot == OfType(S, ty) IN
-     ~IsErr(ot) => \A j \in DOMAIN ot :
+  \A ty \in Types(S) : LET ot == OfType(S, ty).v IN
+     \A j \in DOMAIN ot :
         /\ PreOrderOK(ot[j])
         \* type_tree is the same pre-order, by type
         /\ PreTypes(TypeTree(S, ot[j])) = <<ty>> \o [p \in DOMAIN Descendants(ot[j]) |-> S[Abs(Descendants(ot[j])[p])].ty]
@@ -342,14 +342,13 @@ C17_All(S) == /\ C17_OfType(S) /\ C17_SameAsParser(S) /\ C17_TreeIsParserTree(S)
 \* ---- everything the specification predicts about a list, as one record (printed as JSON by the MC module, and
 \* compared field by field with the real helpers' answers by Trace_Helpers)
 PredType(S, ty) ==
-  LET ot == OfType(S, ty) IN
+  LET ot == OfType(S, ty).v IN
   [ty   |-> ty,
-   err  |-> IsErr(ot),
-   acts |-> IF IsErr(ot) THEN <<>> ELSE ot,
-   ptrees |-> IF IsErr(ot) THEN <<>>
-              ELSE [j \in DOMAIN ot |-> Tree(S, S[ot[j].s].u, Front(S[ot[j].s].lv))],        \* what the parser shows
-   desc |-> IF IsErr(ot) THEN <<>> ELSE [j \in DOMAIN ot |-> Descendants(ot[j])],
-   tt   |-> IF IsErr(ot) THEN <<>> ELSE [j \in DOMAIN ot |-> TypeTree(S, ot[j])],
+   err  |-> OfType(S, ty).err,
+   acts |-> ot,
+   ptrees |-> [j \in DOMAIN ot |-> Tree(S, S[ot[j].s].u, Front(S[ot[j].s].lv))],        \* what the parser shows
+   desc |-> [j \in DOMAIN ot |-> Descendants(ot[j])],
+   tt   |-> [j \in DOMAIN ot |-> TypeTree(S, ot[j])],
    msgs |-> MsgOfType(S, ty)]
 SetToSeq(T) == LET RECURSIVE F(_)
                    F(X) == IF X = {} THEN <<>> ELSE LET x == CHOOSE y \in X : TRUE IN <<x>> \o F(X \ {x})
